@@ -318,7 +318,9 @@ class Retrieve:
                 reader = MDMFSlotReadProxy(server.get_storage_server(),
                                            self._storage_index, shnum, None)
             reader.server = server
-            self.readers[shnum] = reader
+            # The same share number may be held by several servers: keep
+            # a reader for each copy.
+            self.readers.setdefault(shnum, []).append(reader)
 
         if len(self.remaining_sharemap) < k:
             self._raise_notenoughshareserror()
@@ -510,7 +512,12 @@ class Retrieve:
 
         self.log("adding %d new servers to the active list" % len(new_shnums))
         for shnum in new_shnums:
-            reader = self.readers[shnum]
+            # Use a copy of this share that sits on a server we have not
+            # given up on (remaining_sharemap only lists those): otherwise
+            # a copy that already failed validation is picked again on
+            # every turn, forever.
+            reader = [r for r in self.readers[shnum]
+                      if r.server in self.remaining_sharemap[shnum]][0]
             self._active_readers.append(reader)
             self.log("added reader for share %d" % shnum)
             # Each time we add a reader, we check to see if we need the
